@@ -1144,13 +1144,8 @@ func funRound(v *decimal.Big) (*decimal.Big, error) {
 }
 
 func funRoundBank(v *decimal.Big) (*decimal.Big, error) {
-	// 将 v 的小数部分提取出来
-	mv := newDecimalBig().Rem(v, decimal.New(1, 0))
-	if mv.Cmp(decimal.New(5, -1)) <= 0 {
-		return funCeil(v)
-	} else {
-		return funFloor(v)
-	}
+	// the 34-digit context rounds half to even
+	return newDecimalBig().Copy(v).RoundToInt(), nil
 }
 
 func funRoundCash(v, places *decimal.Big) (*decimal.Big, error) {
